@@ -83,6 +83,8 @@ class Contract:
         self.comps = dict(comps or {})
         self.axioms = [(("ax%d" % i, x) if isinstance(x, str) else x) for i, x in enumerate(axioms)]
         self.lemmas = list(lemmas)
+        # theorem: (label, statement) or (label, statement, [axiom texts used only for this theorem]);
+        # theorems are facts over the contract's specification functions, proved once, not assumed elsewhere
         self.theorems = [(("t%d" % i, x) if isinstance(x, str) else x) for i, x in enumerate(theorems)]
         self.ghost_const = set()
         self.loop_havoc_ghost = False
